@@ -401,6 +401,6 @@ def validate(seed, tier):
 
 MANIFEST_ENTRY = {
     "level_text": "Bounded symbolic execution of the real Taus.tau_exit_prob on a table patch with symbolic axes and arbitrary real entries <= 1 (non-positive allowed): nlsat proves value == 10**bilinear(log10 floor(T)) against an independently written blend, node reproduction, min/max of the four surrounding nodes, (0,1], both clamps, interpolator axis order and rejection of out-of-table energies, batch/single agreement for every clamp pattern, and history independence as an inductive step from an arbitrary table state (table after a call == floor(T), floor idempotent, repeated call equal). All shipped exit-probability tables are checked row by row (<= 1, >= 0, axes increasing and equal to the CDF table's).",
-    "level_note": "REAL arithmetic with log10/10** as Ackermannised strictly monotone mutual inverses; RegularGridInterpolator is a reference stub; patch sizes 2x2 (quick), 3x2 (thorough).",
+    "level_note": "Includes C04's Taus.__init__ wiring job (the exit-probability table loaded is the configured version's file). REAL arithmetic with log10/10** as Ackermannised strictly monotone mutual inverses; RegularGridInterpolator is a reference stub; patch sizes 2x2 (quick), 3x2 (thorough).",
     "technique": "symbolic execution of the real NumPy source + z3 qfnra-nlsat (Ackermannised log10/exp10); per-row z3 table queries",
 }
